@@ -168,6 +168,9 @@ def r111(chk, m, rule_id='R11.1'):
              ('an environment invoked under another name', 'verbatim', 'MODE_BEGIN', 'myverb', 'a' + E + 'end{verbatim}b' + E + 'end{myverb}c', 'a' + E + 'end{verbatim}b', 'c'),
              ('the command form ended by \\endverbatim', 'verbatim', 'MODE_NONE', None, 'ab' + E + 'end{x}' + E + 'endverbatim q', 'ab' + E + 'end{x}', ' q'),
              ('an empty body', 'verbatim', 'MODE_BEGIN', 'verbatim', E + 'end{verbatim}r', '', 'r'),
+             ('a body that starts with the tail of the end marker', 'verbatim', 'MODE_BEGIN', 'verbatim', 'm}x' + E + 'end{verbatim}t', 'm}x', 't'),
+             ('a body of one closing brace', 'verbatim', 'MODE_BEGIN', 'verbatim', '}' + E + 'end{verbatim}', '}', ''),
+             ('the command form with a body that starts with the tail of its end marker', 'verbatim', 'MODE_NONE', None, 'tim' + E + 'endverbatim u', 'tim', ' u'),
              ('a body that mentions the begin of its own environment', 'verbatim', 'MODE_BEGIN', 'verbatim', 'x' + E + 'begin{verbatim}y' + E + 'end{verbatim}z' + E + 'end{verbatim}',
               'x' + E + 'begin{verbatim}y', 'z' + E + 'end{verbatim}'),
              ('the starred environment', 'verbatim*', 'MODE_BEGIN', 'verbatim*', 'a*' + E + 'end{verbatim}' + E + 'end{verbatim*}s', 'a*' + E + 'end{verbatim}', 's')]
